@@ -151,7 +151,7 @@ pub fn execute_with(prop: &PropDef, cfg: &Cfg, evs: &[Ev], mut oracle: Box<dyn O
             if world.tags.contains("isolated-edit-of-conflicted-text") && v.signature.ends_with(":text") {
                 v.signature.push_str(":after-isolated-edit-of-conflicted-text");
             }
-            if world.tags.contains("counter-in-text") && v.signature == "cursor-units" {
+            if world.tags.contains("counter-in-text") && (v.signature == "cursor-units" || v.signature == "length-vs-text-width") {
                 v.signature.push_str(":counter-in-text");
             }
             Verdict::Violation(v)
